@@ -190,8 +190,10 @@ fn kind_key(text: &str, off: u32) -> String {
 /// A library and several byte-identical client modules: every reference of a library symbol
 /// sits at the same offsets in each client (copied / templated modules).
 pub fn templated_workspace() -> Workspace {
-    let lib = "pub type Shape {\n  Circle(radius: Int)\n  Square(side: Int)\n}\n\npub const unit = 1\n\npub fn area(s: Shape) -> Int {\n  case s {\n    Circle(radius: r) -> r * r * 3\n    Square(side: x) -> x * x\n  }\n}\n";
-    let client = "import lib.{type Shape, Circle, area}\nimport lib as l\n\npub fn run(s: Shape) -> Int {\n  let c = Circle(radius: l.unit)\n  area(c) + l.area(s) + c.radius\n}\n";
+    // `tag` is declared by two of the three constructors (not a common field), `v` by two
+    // constructors with different types
+    let lib = "pub type Shape {\n  Circle(radius: Int, tag: String)\n  Square(side: Int, tag: String)\n  Blob\n}\n\npub type Value {\n  IntValue(v: Int)\n  TextValue(v: String)\n}\n\npub const unit = 1\n\npub fn area(s: Shape) -> Int {\n  case s {\n    Circle(radius: r, tag: _) -> r * r * 3\n    Square(side: x, tag: t) -> x * x\n    Blob -> 0\n  }\n}\n\npub fn show(x: Value) -> String {\n  case x {\n    IntValue(v: _) -> \"i\"\n    TextValue(v: t) -> t\n  }\n}\n";
+    let client = "import lib.{type Shape, Circle, Square, TextValue, area}\nimport lib as l\n\npub fn run(s: Shape) -> Int {\n  let c = Circle(radius: l.unit, tag: \"c\")\n  let q = Square(side: 2, tag: \"q\")\n  let w = TextValue(v: \"w\")\n  area(c) + l.area(s) + area(q) + c.radius\n}\n";
     Workspace {
         packages: vec![WsPackage {
             name: "app".into(),
